@@ -1444,6 +1444,26 @@ def trig(theta):
 P = Proxy('np_proxy')
 
 
+def plain_if_constant(a):
+    """a symbolic array all of whose elements are constants -> the plain numpy array (else unchanged)"""
+    if not isinstance(a, np.ndarray) or a.dtype != object:
+        return a
+    flat = [lift(e) if not isinstance(e, Sym) else e for e in np.asarray(a, dtype=object).ravel()]
+    vals = []
+    for e in flat:
+        t = z3.simplify(e.t if not isinstance(e, SymReal) else e.v)
+        if isinstance(e, SymBool) and (sc.is_t(t) or sc.is_f(t)):
+            vals.append(sc.is_t(t))
+        elif isinstance(e, SymInt) and z3.is_int_value(t):
+            vals.append(t.as_long())
+        else:
+            return a
+    if not vals:
+        k = getattr(a, '_empty_kind', None) or 'b'
+        return np.zeros(np.shape(a), dtype={'b': bool, 'i': int}.get(k, float))
+    return np.array(vals).reshape(np.shape(a))
+
+
 class LiftingProxy(Proxy):
     """like Proxy, but index-like constructors (arange / repeat) give arrays inside the shim as well, for code that
     later indexes such arrays with symbolic masks (real ndarrays cannot be indexed by symbolic arrays)"""
